@@ -39,6 +39,16 @@ def gen_ops(tier, rng):
         ops.append((f"idx - {d} {rng.randint(1,4)} {rng.choice(SIZES_SMALL)} {rng.randrange(1, 1<<30)} {lst(order)}", {"cat": "idx-partial", "d": d}))
     # invalid idx / parity mismatch
     ops.append(("idx - 4 2 10 5 4", {"cat": "idx-badidx", "d": 4}))
+    # EncodeIdx with a data shard whose length differs from the parity shards: ErrShardSize, parity untouched (both the
+    # serial per-round path and the code-generated path; shorter and longer by one byte, by a SIMD block, by far)
+    for (d, p) in [(4, 2), (1, 1), (5, 3), (10, 4), (2, 13)]:
+        for size in [1, 10, 64, 100, 2752, 2753 + 64, 70000]:
+            for n in sorted({0, 1, size - 1, size + 1, size - 64, size + 64, size // 2, size * 2}):
+                if n < 0 or n == size:
+                    continue
+                ops.append((f"idxbad {rng.choice(OPTSETS)} {d} {p} {size} {rng.randrange(1, 1<<30)} {rng.randrange(d)} {n}", {"cat": "idx-mismatch", "d": 2}))
+        ops.append((f"idxbad - {d} {p} 100 {rng.randrange(1, 1<<30)} {rng.randrange(d)} 100", {"cat": "idx-match", "d": 2}))
+        ops.append((f"idxbad - {d} {p} 100 {rng.randrange(1, 1<<30)} {d} 100", {"cat": "idx-badidx", "d": 2}))
     # Update: all non-empty subsets for small d
     for d in range(1, 7 if tier == "quick" else 9):
         for k in range(1, d + 1):
